@@ -1,5 +1,6 @@
 //! Harness: drives the real lsm-tree and records traces for the TLA+ trace specs.
 mod exec;
+mod filter;
 mod model;
 
 use exec::Session;
@@ -88,7 +89,8 @@ fn replay(args: &[String]) -> i32 {
         };
         let blob = if meta.get("blob").is_some() { blob_from(&meta["blob"]) } else { blob_from(&def_blob) };
         let dir = PathBuf::from(&scratch).join(format!("b{ln}"));
-        let mut sess = match Session::new(dir.clone(), conc.clone(), phys.clone(), blob.clone(), nkeys) {
+        let rules = filter::parse_rules(&meta["filter"]);
+        let mut sess = match Session::new(dir.clone(), conc.clone(), phys.clone(), blob.clone(), nkeys, rules) {
             Ok(s) => s,
             Err(e) => {
                 eprintln!("cannot create tree: {e}");
@@ -97,8 +99,8 @@ fn replay(args: &[String]) -> i32 {
         };
         let reset = json!({"op": {"op": "reset", "beh": meta.get("id").cloned().unwrap_or(json!(ln)),
             "phys": phys.describe(), "key_alpha": conc.key_alpha, "val_alpha": conc.val_alpha,
-            "blob": blob.is_some(),
-            "big": blob.as_ref().map_or(vec![], |b| (1..=200i64).filter(|v| conc.val_len(*v) >= b.threshold as usize).collect::<Vec<_>>())},
+            "blob": blob.is_some(), "filter": meta.get("filter").cloned().unwrap_or(json!([])),
+            "big": blob.as_ref().map_or(vec![], |b| (1..=6000i64).filter(|v| conc.val_len(*v) >= b.threshold as usize).collect::<Vec<_>>())},
             "ret": "ok", "rk": "ok", "ro": false, "info": {}, "st": sess.project(), "obs": sess.observe()});
         writeln!(wr, "{reset}").expect("write");
         nbeh += 1;
